@@ -43,9 +43,10 @@ def check_c04(prop, tier, seed):
         except subprocess.TimeoutExpired:
             p.kill()
             raise Infra("handler-seq %s did not finish within 3000 s" % name)
-        if p.returncode != 0:
-            run.driver_failed("handler-seq %s failed" % (name), se)
-        stats[name] = json.loads(so.strip().splitlines()[-1])
+        if run.handler_seq_done(p, so, se, out, name):
+            stats[name] = {"hang": True}
+        else:
+            stats[name] = json.loads(so.strip().splitlines()[-1])
         pl.pending.append(out)
     pl.validate()
     pl.finish_extra()
